@@ -75,6 +75,8 @@ def specStep (C : Nat) (t : Tbl) : Op → Option Tbl
     if i < t.rows ∧ j < C then some ⟨t.rows, fun r c => if r = i ∧ c = j then v else t.cell r c⟩ else none
   | .iterMutSet v =>
     if C = 0 then none else some ⟨t.rows, fun r c => if c = 0 then v + r % 2 else t.cell r c⟩
+  | .iterMutRevSet v =>
+    if C = 0 then none else some ⟨t.rows, fun r c => if c = 0 then v + (t.rows - 1 - r) % 2 else t.cell r c⟩
   | .clone => some t
 
 theorem writeRow_rows (m : Mat Nat C) (i : Nat) (vals : List Nat) : (writeRow m i vals).rows = m.rows :=
@@ -108,6 +110,37 @@ theorem colZero_get (v : Nat) (m : Mat Nat C) (hC : 0 < C) (n r c : Nat) :
         intro h3
         by_cases hrn : r = n
         · subst hrn; exact h1 ⟨rfl, h3.2.1, h3.2.2, hC⟩
+        · exact h2 ⟨by omega, h3.2.1, h3.2.2⟩
+
+theorem colZeroRev_rows (v N : Nat) (m : Mat Nat C) (n : Nat) :
+    ((List.range n).foldl (fun d k => d.set (N - 1 - k) 0 (v + k % 2)) m).rows = m.rows := by
+  induction n with
+  | zero => rfl
+  | succ n ih => rw [Striped.foldl_range_succ]; simp [ih]
+
+/-- the reverse mutable pass, after `n ≤ N` steps over a matrix of `N` rows: the LAST `n` rows have
+    been visited, last row first -/
+theorem colZeroRev_get (v : Nat) (m : Mat Nat C) (hC : 0 < C) (n : Nat) (hn : n ≤ m.rows) (r c : Nat) :
+    ((List.range n).foldl (fun d k => d.set (m.rows - 1 - k) 0 (v + k % 2)) m).get r c =
+      if m.rows - n ≤ r ∧ r < m.rows ∧ c = 0 then v + (m.rows - 1 - r) % 2 else m.get r c := by
+  induction n with
+  | zero =>
+    simp only [List.range_zero, List.foldl_nil]
+    rw [if_neg]; omega
+  | succ n ih =>
+    rw [Striped.foldl_range_succ, Mat.get_set, colZeroRev_rows, ih (by omega)]
+    by_cases h1 : r = m.rows - 1 - n ∧ c = 0 ∧ m.rows - 1 - n < m.rows ∧ 0 < C
+    · obtain ⟨ha, hb, hc, _⟩ := h1
+      rw [if_pos ⟨ha, hb, hc, hC⟩, if_pos ⟨by omega, by omega, hb⟩]
+      have : m.rows - 1 - r = n := by omega
+      rw [this]
+    · rw [if_neg h1]
+      by_cases h2 : m.rows - n ≤ r ∧ r < m.rows ∧ c = 0
+      · rw [if_pos h2, if_pos ⟨by omega, h2.2.1, h2.2.2⟩]
+      · rw [if_neg h2, if_neg]
+        intro h3
+        by_cases hrn : r = m.rows - 1 - n
+        · exact h1 ⟨hrn, h3.2.2, by omega, hC⟩
         · exact h2 ⟨by omega, h3.2.1, h3.2.2⟩
 
 /-- **C19, one step**: the concrete operation panics exactly when the specification says so, and
@@ -198,6 +231,22 @@ theorem step_refines (m : Mat Nat C) (op : Op) :
       by_cases hc0 : c = 0
       · rw [if_pos ⟨hr', hc0, hr'⟩, if_pos hc0]
       · rw [if_neg (fun h => hc0 h.2.1), if_neg hc0]
+  | iterMutRevSet v =>
+    by_cases h0 : C = 0
+    · simp only [step, specStep, if_pos h0]
+    · simp only [step, specStep, if_neg h0]
+      refine ⟨colZeroRev_rows v m.rows m m.rows, ?_⟩
+      intro r c hr _
+      have hr' : r < m.rows := by
+        have : (abs ((List.range m.rows).foldl (fun d k => d.set (m.rows - 1 - k) 0 (v + k % 2)) m)).rows
+            = m.rows := colZeroRev_rows v m.rows m m.rows
+        rw [this] at hr; exact hr
+      show ((List.range m.rows).foldl (fun d k => d.set (m.rows - 1 - k) 0 (v + k % 2)) m).get r c =
+        if c = 0 then v + (m.rows - 1 - r) % 2 else m.get r c
+      rw [colZeroRev_get v m (by omega) m.rows (Nat.le_refl _)]
+      by_cases hc0 : c = 0
+      · rw [if_pos ⟨by omega, hr', hc0⟩, if_pos hc0]
+      · rw [if_neg (fun h => hc0 h.2.2), if_neg hc0]
   | clone => exact ⟨rfl, fun _ _ _ _ => rfl⟩
 
 /-- the specification respects table equality (so the refinement composes along a history) -/
@@ -253,6 +302,18 @@ theorem specStep_congr (a b : Tbl) (h : Tbl.Same C a b) (op : Op) :
       refine ⟨hr, ?_⟩
       intro r c hrr hcc
       show (if c = 0 then v + r % 2 else a.cell r c) = (if c = 0 then v + r % 2 else b.cell r c)
+      split
+      · rfl
+      · exact hc r c hrr hcc
+  | iterMutRevSet v =>
+    by_cases h0 : C = 0
+    · simp only [specStep, if_pos h0]
+    · simp only [specStep, if_neg h0]
+      refine ⟨hr, ?_⟩
+      intro r c hrr hcc
+      show (if c = 0 then v + (a.rows - 1 - r) % 2 else a.cell r c) =
+        (if c = 0 then v + (b.rows - 1 - r) % 2 else b.cell r c)
+      rw [hr]
       split
       · rfl
       · exact hc r c hrr hcc
